@@ -22,32 +22,8 @@ theorem Adjoint.pick {x y gy g : Tensor R} {ids : List Nat} {dim : Nat} {raw : N
     (hlen : ids.length < W) (hf : pickFw x ids dim raw = .ok y)
     (hb : pickBw gy ids dim (zeroT x.shape) = .ok g) (hgy : gy.shape = y.shape) :
     ∑ j ∈ range x.shape.size, g.data j * x.data j = ∑ i ∈ range y.shape.size, gy.data i * y.data i := by
-  unfold pickFw at hf
-  unfold pickBw at hb
-  cases hc : checkDevice x with
-  | error e => simp [hc, bind, Except.bind] at hf
-  | ok u =>
-  cases hF : Front.pickFw x.shape ids dim with
-  | error e => simp [hc, hF, bind, Except.bind] at hf
-  | ok p =>
-  obtain ⟨ys, m⟩ := p
-  simp only [hc, hF, bind, Except.bind] at hf
-  split at hf
-  · cases hf
-  obtain ⟨hfb, hall, rfl⟩ := runSet_inv hf
-  cases hc1 : checkDevice gy with
-  | error e => simp [hc1, bind, Except.bind] at hb
-  | ok u1 =>
-  cases hc2 : checkDevice (zeroT (R := R) x.shape) with
-  | error e => simp [hc1, hc2, bind, Except.bind] at hb
-  | ok u2 =>
-  cases hB : Front.pickBw gy.shape (zeroT (R := R) x.shape).shape ids dim with
-  | error e => simp [hc1, hc2, hB, bind, Except.bind] at hb
-  | ok mb =>
-  simp only [hc1, hc2, hB, bind, Except.bind] at hb
-  split at hb
-  · cases hb
-  obtain ⟨_, rfl⟩ := runAdd_inv hb
+  obtain ⟨_, ys, m, hF, hfb, hall, rfl⟩ := pickFw_inv hf
+  obtain ⟨_, _, mb, hB, _, rfl⟩ := pickBw_inv hb
   obtain ⟨_, _, _, _, hys, _, _, hm, _, hysz⟩ := Front.pickFw_plan hx hlen hF
   have hgyw : WF gy.shape := by rw [hgy]; exact hys
   obtain ⟨_, _, _, _, _, _, hmb, _, _⟩ := Front.pickBw_plan hgyw hx hlen hB
@@ -56,5 +32,308 @@ theorem Adjoint.pick {x y gy g : Tensor R} {ids : List Nat} {dim : Nat} {raw : N
   have hon : m.WritesOnce := by
     rw [hm]; exact (writesAll_of_id (size := ys.size) (fun _ => rfl) (by rw [pick_count, hysz])).2
   exact adjoint_of_same_idx m m.swap gy.data x.data raw x.shape.size ys.size rfl (fun _ _ => rfl) (fun _ _ => rfl) hfb hall hon
+
+/-- batch_pick_bw is the transpose of batch_pick_fw -/
+theorem Adjoint.batch_pick {x y gy g : Tensor R} {ids : List Nat} {raw : Nat → R} (hx : WF x.shape)
+    (hlen : ids.length < W) (hf : batchPickFw x ids raw = .ok y)
+    (hb : batchPickBw gy ids (zeroT x.shape) = .ok g) (hgy : gy.shape = y.shape) :
+    ∑ j ∈ range x.shape.size, g.data j * x.data j = ∑ i ∈ range y.shape.size, gy.data i * y.data i := by
+  obtain ⟨_, ys, m, hF, hfb, hall, rfl⟩ := batchPickFw_inv hf
+  obtain ⟨_, _, mb, hB, _, rfl⟩ := batchPickBw_inv hb
+  obtain ⟨_, _, hys, _, _, hm, _, hysz⟩ := Front.batchPickFw_plan hx hlen hF
+  have hgyw : WF gy.shape := by rw [hgy]; exact hys
+  obtain ⟨_, _, _, _, hmb, _, _⟩ := Front.batchPickBw_plan hgyw hx hlen hB
+  have hsw : mb = m.swap := by rw [hmb, hm]
+  subst hsw
+  have hon : m.WritesOnce := by
+    rw [hm]; exact (writesAll_of_id (size := ys.size) (fun _ => rfl) (by rw [hysz]; simp [batchPickMoves, Nat.mul_comm])).2
+  exact adjoint_of_same_idx m m.swap gy.data x.data raw x.shape.size ys.size rfl (fun _ _ => rfl) (fun _ _ => rfl) hfb hall hon
+
+/-- batch_slice_bw is the transpose of batch_slice_fw -/
+theorem Adjoint.batch_slice {x y gy g : Tensor R} {lower upper : Nat} {raw : Nat → R} (hx : WF x.shape)
+    (hf : batchSliceFw x lower upper raw = .ok y)
+    (hb : batchSliceBw gy lower (zeroT x.shape) = .ok g) (hgy : gy.shape = y.shape) :
+    ∑ j ∈ range x.shape.size, g.data j * x.data j = ∑ i ∈ range y.shape.size, gy.data i * y.data i := by
+  unfold batchSliceFw at hf
+  obtain ⟨_, ys, m, hF, hfb, hall, rfl⟩ := fw_inv hf
+  unfold batchSliceBw batchSliceBwWith at hb
+  obtain ⟨_, _, mb, hB, _, rfl⟩ := bw_inv hb
+  obtain ⟨hl, hu, hys, hyb, _, hm, _, hysz⟩ := Front.batchSliceFw_plan hx hF
+  have hgyw : WF gy.shape := by rw [hgy]; exact hys
+  have hlow : lower < W := by have := Front.batch_lt hx; omega
+  obtain ⟨_, _, _, hmb, _, _⟩ := Front.batchSliceBw_plan hgyw hx hlow hB
+  have hgb : gy.shape.batch = upper - lower := by rw [hgy]; exact hyb
+  have hmul : mul32 x.shape.volume lower = x.shape.volume * lower := by
+    apply Nat.mod_eq_of_lt
+    calc x.shape.volume * lower ≤ x.shape.volume * x.shape.batch := Nat.mul_le_mul_left _ (by omega)
+      _ < W := hx.fits
+  have hon : m.WritesOnce := by
+    rw [hm]; exact (writesAll_of_id (size := ys.size) (fun _ => rfl) (by rw [hysz]; rfl)).2
+  refine adjoint_of_same_idx m mb gy.data x.data raw x.shape.size ys.size ?_ ?_ ?_ hfb hall hon
+  · rw [hmb, hm, hgb]; rfl
+  · intro t _; rw [hmb, hm]; rfl
+  · intro t _; rw [hmb, hm]; simp only [batchSliceBwMoves, batchSliceFwMoves, hmul]
+
+/-- slice_bw is the transpose of slice_fw (operands with the same minibatch
+size; the folding into a batch-1 `gx` is C03) -/
+theorem Adjoint.slice {x y gy g : Tensor R} {dim lower upper : Nat} {raw : Nat → R} (hx : WF x.shape)
+    (hf : sliceFw x dim lower upper raw = .ok y)
+    (hb : sliceBw gy dim lower (zeroT x.shape) = .ok g) (hgy : gy.shape = y.shape) :
+    ∑ j ∈ range x.shape.size, g.data j * x.data j = ∑ i ∈ range y.shape.size, gy.data i * y.data i := by
+  unfold sliceFw at hf
+  obtain ⟨_, ys, m, hF, hfb, hall, rfl⟩ := fw_inv hf
+  unfold sliceBw sliceBwWith at hb
+  cases hc : checkDevice gy with
+  | error e => simp [hc, bind, Except.bind] at hb
+  | ok u =>
+  cases hc2 : checkDevice (zeroT (R := R) x.shape) with
+  | error e => simp [hc, hc2, bind, Except.bind] at hb
+  | ok u2 =>
+  cases hB : Front.sliceBw gy.shape (zeroT (R := R) x.shape).shape dim lower with
+  | error e => simp [hc, hc2, hB, bind, Except.bind] at hb
+  | ok p =>
+  simp only [hc, hc2, hB, bind, Except.bind] at hb
+  obtain ⟨_, rfl⟩ := runAdd_inv hb
+  obtain ⟨hl, hu, hys, hyb, hyg, hm, _, hysz⟩ := Front.sliceFw_plan hx hF
+  have hgyw : WF gy.shape := by rw [hgy]; exact hys
+  have hlow : lower < W := by have := hx.get_lt dim; omega
+  have hgb : gy.shape.batch = x.shape.batch := by rw [hgy]; exact hyb
+  have hgd : gy.shape.get dim = upper - lower := by rw [hgy, hyg dim, if_pos rfl]
+  obtain ⟨_, _, _, _, _, hp⟩ := Front.sliceBw_plan hgyw hx hlow hB
+  have hon : m.WritesOnce := by
+    rw [hm]; exact (writesAll_of_id (size := ys.size) (fun _ => rfl) (by rw [hysz, sliceFw_count])).2
+  have hL := lo_pos hx dim
+  have hoffW : lo x.shape dim * lower < W := by
+    have h1 : lo x.shape dim * lower ≤ lo x.shape dim * x.shape.get dim * up x.shape dim :=
+      calc lo x.shape dim * lower ≤ lo x.shape dim * x.shape.get dim := Nat.mul_le_mul_left _ (by omega)
+        _ = lo x.shape dim * x.shape.get dim * 1 := by ring
+        _ ≤ lo x.shape dim * x.shape.get dim * up x.shape dim := Nat.mul_le_mul_left _ (up_pos hx dim)
+    rw [← (hx.toView dim).volume] at h1
+    have := hx.vol_lt; omega
+  subst hm
+  rcases hp with ⟨_, hy1, hx1, h0, rfl⟩ | ⟨_, rfl⟩
+  · -- the axis is at or beyond the depth: inplace_add
+    have hny : upper - lower = 1 := by omega
+    have ⟨c, hidx⟩ := inplaceAdd_same_idx (V := lo x.shape dim * up x.shape dim) (B := x.shape.batch)
+    have hcnt : (sliceFwMoves (lo x.shape dim) (lo x.shape dim * (upper - lower)) (lo x.shape dim * x.shape.get dim)
+        (up x.shape dim * x.shape.batch) lower).count = lo x.shape dim * up x.shape dim * x.shape.batch := by
+      simp only [sliceFwMoves, hny]; ring
+    refine adjoint_of_same_idx _ _ gy.data x.data raw x.shape.size ys.size ?_ ?_ ?_ hfb hall hon
+    · simp only [Front.SliceBwPlan.moves, hgb, zeroT]; rw [c, hcnt]
+    · intro t ht
+      rw [hcnt] at ht
+      simp only [Front.SliceBwPlan.moves, hgb, zeroT]
+      rw [(hidx t ht).1]; rfl
+    · intro t ht
+      rw [hcnt] at ht
+      simp only [Front.SliceBwPlan.moves, hgb, zeroT]
+      rw [(hidx t ht).2, hny, hx1, h0]
+      exact sliceFw_trivial.symm
+  · have ⟨c, hidx⟩ := sliceBw_same_idx (L := lo x.shape dim) (ny := upper - lower) (nx := x.shape.get dim)
+      (U := up x.shape dim) (B := x.shape.batch) (off := lower) hoffW
+    refine adjoint_of_same_idx _ _ gy.data x.data raw x.shape.size ys.size ?_ ?_ ?_ hfb hall hon
+    · simp only [Front.SliceBwPlan.moves, hgb, hgd, zeroT]; exact c
+    · intro t ht
+      simp only [Front.SliceBwPlan.moves, hgb, hgd, zeroT]
+      rw [(hidx t ht).1]; rfl
+    · intro t ht
+      simp only [Front.SliceBwPlan.moves, hgb, hgd, zeroT]
+      exact (hidx t ht).2
+
+/-- flip_bw is the transpose of flip_fw (flip is its own transpose) -/
+theorem Adjoint.flip {x y gy g : Tensor R} {dim : Nat} {raw : Nat → R} (hx : WF x.shape)
+    (hf : flipFw x dim raw = .ok y) (hb : flipBw gy dim (zeroT x.shape) = .ok g) (hgy : gy.shape = x.shape) :
+    ∑ j ∈ range x.shape.size, g.data j * x.data j = ∑ i ∈ range y.shape.size, gy.data i * y.data i := by
+  unfold flipFw at hf
+  obtain ⟨_, ys, m, hF, _, _, rfl⟩ := fw_inv hf
+  unfold flipBw at hb
+  obtain ⟨_, _, mb, hB, _, rfl⟩ := bw_inv hb
+  obtain ⟨rfl, rfl, hxs⟩ := Front.flipFw_plan hx hF
+  obtain ⟨_, rfl, _⟩ := Front.flipBw_plan (by rw [hgy]; exact hx) hx hB
+  have hL := lo_pos hx dim
+  have hn := hx.pos dim
+  have hw := flip_writes (R := up x.shape dim * x.shape.batch) hn hL
+  simp only [zeroT]
+  rw [hxs]
+  -- both kernels move the element at `flipMap i` to `i`
+  have hfw : ∀ i, i < lo x.shape dim * x.shape.get dim * (up x.shape dim * x.shape.batch) →
+      scatterSet (flipMoves (x.shape.get dim) (lo x.shape dim) (lo x.shape dim * (up x.shape dim * x.shape.batch))).didx
+        (flipMoves (x.shape.get dim) (lo x.shape dim) (lo x.shape dim * (up x.shape dim * x.shape.batch))).sidx x.data
+        (flipMoves (x.shape.get dim) (lo x.shape dim) (lo x.shape dim * (up x.shape dim * x.shape.batch))).count raw i
+        = x.data (flipMap (lo x.shape dim) (x.shape.get dim) i) := by
+    intro i hi
+    obtain ⟨t, ht, e1, e2⟩ := flip_step_of hL hn hi
+    have := scatterSet_of_once hw.2 x.data raw ht
+    rw [e1, e2] at this; exact this
+  have hbw : ∀ i, i < lo x.shape dim * x.shape.get dim * (up x.shape dim * x.shape.batch) →
+      scatterAdd (flipMoves (x.shape.get dim) (lo x.shape dim) (lo x.shape dim * (up x.shape dim * x.shape.batch))).didx
+        (flipMoves (x.shape.get dim) (lo x.shape dim) (lo x.shape dim * (up x.shape dim * x.shape.batch))).sidx gy.data
+        (flipMoves (x.shape.get dim) (lo x.shape dim) (lo x.shape dim * (up x.shape dim * x.shape.batch))).count (fun _ => 0) i
+        = gy.data (flipMap (lo x.shape dim) (x.shape.get dim) i) := by
+    intro i hi
+    obtain ⟨t, ht, e1, e2⟩ := flip_step_of hL hn hi
+    have := scatterAdd_of_once hw.2 gy.data ht
+    rw [e1, e2] at this; exact this
+  apply sum_reindex _ (flipMap (lo x.shape dim) (x.shape.get dim)) (flipMap (lo x.shape dim) (x.shape.get dim))
+  · intro i hi; exact flipMap_lt hL hn hi
+  · intro i hi; exact flipMap_lt hL hn hi
+  · intro i _; exact flipMap_invol hL hn
+  · intro i _; exact flipMap_invol hL hn
+  · intro i hi
+    rw [hbw i hi, hfw _ (flipMap_lt hL hn hi), flipMap_invol hL hn]
+
+/-- transpose_bw (Naive: `inplace_add(transpose_fw(gy), gx)`) is the transpose of transpose_fw -/
+theorem Adjoint.transpose {x y gy g : Tensor R} {raw raw' : Nat → R} (hx : WF x.shape) (hgyw : WF gy.shape)
+    (hf : transposeFw x raw = .ok y) (hb : transposeBw x y gy (zeroT x.shape) raw' = .ok g) :
+    ∑ j ∈ range x.shape.size, g.data j * x.data j = ∑ i ∈ range y.shape.size, gy.data i * y.data i := by
+  unfold transposeBw at hb
+  cases hc1 : checkDevice x with
+  | error e => simp [hc1, bind, Except.bind] at hb
+  | ok u1 =>
+  cases hc2 : checkDevice y with
+  | error e => simp [hc1, hc2, bind, Except.bind] at hb
+  | ok u2 =>
+  cases hc3 : checkDevice gy with
+  | error e => simp [hc1, hc2, hc3, bind, Except.bind] at hb
+  | ok u3 =>
+  cases hc4 : checkDevice (zeroT (R := R) x.shape) with
+  | error e => simp [hc1, hc2, hc3, hc4, bind, Except.bind] at hb
+  | ok u4 =>
+  cases hG : Front.transposeBwGuard x.shape y.shape gy.shape (zeroT (R := R) x.shape).shape with
+  | error e => simp [hc1, hc2, hc3, hc4, hG, bind, Except.bind] at hb
+  | ok u5 =>
+  cases hT : transposeFw gy raw' with
+  | error e => simp [hc1, hc2, hc3, hc4, hG, hT, bind, Except.bind] at hb
+  | ok tg =>
+  simp only [hc1, hc2, hc3, hc4, hG, hT, bind, Except.bind] at hb
+  obtain ⟨_, rfl⟩ := runAdd_inv hb
+  -- the guard: gy has the shape of y
+  have hyg : y.shape.eq gy.shape = true := by
+    unfold Front.transposeBwGuard at hG
+    split at hG
+    · cases hG
+    · rename_i hc; simp only [Bool.or_eq_true, not_or] at hc
+      exact Front.not_not_eq hc.2
+  unfold transposeFw at hf hT
+  obtain ⟨_, ys, m, hF, _, _, rfl⟩ := fw_inv hf
+  obtain ⟨_, ts, mt, hFt, _, _, rfl⟩ := fw_inv hT
+  obtain ⟨hmx, hys, hyb, g0, g1, g2, rfl, hxs, hysz⟩ := Front.transposeFw_plan hx hF
+  have ⟨hge, hbe⟩ := eq_get hyg
+  simp only at hge hbe
+  obtain ⟨_, hts, htb, _, _, _, rfl, _, _⟩ := Front.transposeFw_plan hgyw hFt
+  have e0 : gy.shape.get 0 = x.shape.get 1 := by rw [← hge, g0]
+  have e1 : gy.shape.get 1 = x.shape.get 0 := by rw [← hge, g1]
+  have eb : gy.shape.batch = x.shape.batch := by rw [← hbe, hyb]
+  have h1 := hx.pos 0
+  have h2 := hx.pos 1
+  simp only [zeroT, Front.b2n_hasBatch x.shape hx, Front.b2n_hasBatch ts hts, htb, eb, e0, e1,
+    Front.matrix_volume hx hmx] at *
+  have ⟨cI, hI⟩ := inplaceAdd_same_idx (V := x.shape.get 0 * x.shape.get 1) (B := x.shape.batch)
+  rw [hxs, hysz]
+  have hwT := (transpose_writes (bs := x.shape.batch) h2 h1).2
+  have hwF := (transpose_writes (bs := x.shape.batch) h1 h2).2
+  have hN : x.shape.get 1 * x.shape.get 0 * x.shape.batch = x.shape.get 0 * x.shape.get 1 * x.shape.batch := by ring
+  apply sum_reindex _ (transposeMoves (x.shape.get 0) (x.shape.get 1) x.shape.batch).didx
+    (transposeMoves (x.shape.get 1) (x.shape.get 0) x.shape.batch).didx
+  · intro i hi; exact transpose_didx_lt hi
+  · intro i hi; rw [← hN] at hi ⊢; exact transpose_didx_lt hi
+  · intro i _; exact transpose_didx_invol h1 h2
+  · intro i _; exact transpose_didx_invol h2 h1
+  · intro j hj
+    -- the backward side at j
+    have hon : (inplaceAddMoves (x.shape.get 0 * x.shape.get 1) (max x.shape.batch x.shape.batch)
+        ((if x.shape.batch = 1 then 0 else 1) * (x.shape.get 0 * x.shape.get 1))
+        ((if x.shape.batch = 1 then 0 else 1) * (x.shape.get 0 * x.shape.get 1))).WritesOnce := by
+      intro t t' ht ht' e
+      rw [cI] at ht ht'
+      rwa [(hI t ht).2, (hI t' ht').2] at e
+    have hb1 := scatterAdd_of_once hon (scatterSet (transposeMoves (x.shape.get 1) (x.shape.get 0) x.shape.batch).didx
+      (transposeMoves (x.shape.get 1) (x.shape.get 0) x.shape.batch).sidx gy.data
+      (transposeMoves (x.shape.get 1) (x.shape.get 0) x.shape.batch).count raw') (t := j) (by rw [cI]; exact hj)
+    rw [(hI j hj).1, (hI j hj).2] at hb1
+    rw [hb1]
+    -- T(gy) at j = gy at τ j
+    have hcT : (transposeMoves (x.shape.get 0) (x.shape.get 1) x.shape.batch).didx j <
+        (transposeMoves (x.shape.get 1) (x.shape.get 0) x.shape.batch).count := by
+      have := transpose_didx_lt hj
+      simp only [transposeMoves] at this ⊢
+      calc _ < x.shape.get 0 * x.shape.get 1 * x.shape.batch := this
+        _ = _ := by ring
+    have hT := scatterSet_of_once hwT gy.data raw' hcT
+    rw [transpose_didx_invol h1 h2] at hT
+    rw [hT]
+    have hcF : j < (transposeMoves (x.shape.get 0) (x.shape.get 1) x.shape.batch).count := by
+      simp only [transposeMoves]; calc j < _ := hj
+                                    _ = _ := by ring
+    have hFw := scatterSet_of_once hwF x.data raw hcF
+    rw [hFw]
+    rfl
+
+/-- max_bw (and min_bw, which is the same code): with `am i` the first position
+along the axis where `x` equals `y[i]` — the position of the extremum when
+`y = max_fw x`, and the only one under the hypothesis that the extremum is
+attained once — the backward kernel is the transpose of the selection
+`dx ↦ (i ↦ dx[off i (am i)])`, which is the derivative of `max` along the axis at
+such an `x`. -/
+theorem Adjoint.max [DecidableEq R] {x y gy g : Tensor R} {dim : Nat} (hx : WF x.shape) (hy : WF y.shape)
+    (hgyw : WF gy.shape) (hb : maxBw x y gy dim (zeroT x.shape) = .ok g) (am : Nat → Nat)
+    (ham : ∀ i, i < y.shape.size → am i < x.shape.get dim ∧
+      x.data (axisOff (lo x.shape dim) (lo x.shape dim * x.shape.get dim) i (am i)) = y.data i ∧
+      ∀ j, j < am i → x.data (axisOff (lo x.shape dim) (lo x.shape dim * x.shape.get dim) i j) ≠ y.data i)
+    (dx : Nat → R) :
+    ∑ o ∈ range x.shape.size, g.data o * dx o =
+      ∑ i ∈ range y.shape.size, gy.data i * dx (axisOff (lo x.shape dim) (lo x.shape dim * x.shape.get dim) i (am i)) := by
+  unfold maxBw at hb
+  cases hc1 : checkDevice x with
+  | error e => simp [hc1, bind, Except.bind] at hb
+  | ok u1 =>
+  cases hc2 : checkDevice y with
+  | error e => simp [hc1, hc2, bind, Except.bind] at hb
+  | ok u2 =>
+  cases hc3 : checkDevice gy with
+  | error e => simp [hc1, hc2, hc3, bind, Except.bind] at hb
+  | ok u3 =>
+  cases hc4 : checkDevice (zeroT (R := R) x.shape) with
+  | error e => simp [hc1, hc2, hc3, hc4, bind, Except.bind] at hb
+  | ok u4 =>
+  cases hF : Front.maxBw x.shape y.shape gy.shape (zeroT (R := R) x.shape).shape dim with
+  | error e => simp [hc1, hc2, hc3, hc4, hF, bind, Except.bind] at hb
+  | ok r =>
+  simp only [hc1, hc2, hc3, hc4, hF, bind, Except.bind] at hb
+  split at hb
+  · cases hb
+  simp only [pure, Except.pure, Except.ok.injEq] at hb
+  subst hb
+  obtain ⟨_, _, rfl, hxs, _, hys, _⟩ := Front.maxBw_plan hx hy hgyw hx hF
+  simp only [zeroT]
+  have hbnd := axisReduce_bounds (L := lo x.shape dim) (n := x.shape.get dim) (R := up x.shape dim * x.shape.batch) (lo_pos hx dim)
+  rw [hxs, select_adjoint _ _ _ _ _ _ hbnd, hys]
+  apply sum_congr rfl
+  intro i hi
+  have hi' : i < y.shape.size := by rw [hys]; exact mem_range.mp hi
+  obtain ⟨h1, h2, h3⟩ := ham i hi'
+  simp only [axisReduce]
+  rw [firstEq_eq_some _ _ _ _ _ h1 h2 h3]
+
+theorem Adjoint.min [DecidableEq R] {x y gy g : Tensor R} {dim : Nat} (hx : WF x.shape) (hy : WF y.shape)
+    (hgyw : WF gy.shape) (hb : minBw x y gy dim (zeroT x.shape) = .ok g) (am : Nat → Nat)
+    (ham : ∀ i, i < y.shape.size → am i < x.shape.get dim ∧
+      x.data (axisOff (lo x.shape dim) (lo x.shape dim * x.shape.get dim) i (am i)) = y.data i ∧
+      ∀ j, j < am i → x.data (axisOff (lo x.shape dim) (lo x.shape dim * x.shape.get dim) i j) ≠ y.data i)
+    (dx : Nat → R) :
+    ∑ o ∈ range x.shape.size, g.data o * dx o =
+      ∑ i ∈ range y.shape.size, gy.data i * dx (axisOff (lo x.shape dim) (lo x.shape dim * x.shape.get dim) i (am i)) :=
+  Adjoint.max hx hy hgyw hb am ham dx
+
+/-- Unfinished: permute_dims_bw is the transpose of permute_dims_fw.  The model's
+backward loop is the forward loop with source and destination exchanged
+(`Front.permuteBw` returns `(permuteFwMoves …).swap`), so by `adjoint_of_same_idx`
+the statement reduces to "permute_dims_fw writes every output element exactly
+once" (`C11.Move.Kernel.permute_dims_fw_writes_all_full`: the mixed-radix
+re-encoding `permJ` is a bijection), which is not proved. -/
+def Adjoint.permute_dims_full : Prop :=
+  ∀ (x y gy g : Tensor Int) (perm : List Nat) (raw : Nat → Int), WF x.shape →
+    permuteFw x perm raw = .ok y → permuteBw x y gy perm (⟨x.shape, fun _ => 0, .here⟩) = .ok g →
+    ∑ j ∈ range x.shape.size, g.data j * x.data j = ∑ i ∈ range y.shape.size, gy.data i * y.data i
 
 end Primitiv.C01.Move
